@@ -152,7 +152,7 @@ theorem simulate_ok {σ} (S : Sys σ) (s : Sim σ) (t : Rat) (n : Option Nat) (h
     (simulate S s t n).1.errors = 0 ∧
       ((simulate S s t n).2 = none → (simulate S s t n).1.segs.isSome = true) := by
   unfold simulate
-  simp only [he, Nat.lt_irrefl, if_false, gt_iff_lt]
+  simp only [he, Nat.lt_irrefl, if_false, gt_iff_lt, gen_simulateChecksBeforeShift, if_true]
   cases reached? s.segs with
   | error e => exact ⟨he, by intro h; cases h⟩
   | ok prior =>
@@ -167,7 +167,7 @@ theorem timeCourse_ok {σ} (S : Sys σ) (s : Sim σ) (pts : List Rat) (he : s.er
     (timeCourse S s pts).1.errors = 0 ∧
       ((timeCourse S s pts).2 = none → (timeCourse S s pts).1.segs.isSome = true) := by
   unfold timeCourse
-  simp only [he, Nat.lt_irrefl, if_false, gt_iff_lt]
+  simp only [he, Nat.lt_irrefl, if_false, gt_iff_lt, gen_timeCourseChecksBeforeShift, if_true]
   cases reached? s.segs with
   | error e => exact ⟨he, by intro h; cases h⟩
   | ok prior =>
@@ -302,12 +302,19 @@ theorem filter_beq_of_nodup (l : List Rat) (a : Rat) (hnd : l.Nodup) (ha : a ∈
       have : (x == a) = false := by simpa using hxa
       simp [List.filter_cons, this, ih hx.2 ha']
 
+/-- the selection with the comparison operators of the current source is the half-open `(lo, hi]` -/
+theorem select_eq (full : List Rat) (lo hi : Rat) :
+    select full lo hi = full.filter fun t => decide (lo < t) && decide (t ≤ hi) := rfl
+
+@[simp] theorem gen_protocolTCRefusal (a b : Rat) : Gen.protocolTCRefusal.eval a b = decide (a ≤ b) := rfl
+
 /-- the half-open selection `(lo, hi]` of the outer join is exactly what the step asks for: the
     requested points inside plus the boundary `hi` -/
 theorem select_outerJoin (idx pts : List Rat) (lo hi : Rat) (hhi : hi ∈ idx) (hnd : idx.Nodup)
     (hlo : lo < hi) (honly : ∀ b ∈ idx, lo < b → b ≤ hi → b = hi) :
     select (outerJoin idx pts) lo hi = stepPoints pts lo hi := by
-  unfold select outerJoin stepPoints
+  rw [select_eq]
+  unfold outerJoin stepPoints
   rw [filter_sortRat, List.filter_append]
   congr 2
   rw [List.filter_filter]
@@ -500,7 +507,8 @@ theorem simulateProtocolTC_eq {σ} (S : Sys σ) (s : Sim σ) (steps : List PStep
   have hpos : steps.all (fun s => decide (0 < s.1)) = true := by
     simp only [wfSteps, Bool.and_eq_true] at hwf; exact hwf.1
   unfold simulateProtocolTC
-  simp only [he, Nat.lt_irrefl, if_false, gt_iff_lt, hT, makeProtocol_wf steps hwf]
+  simp only [he, Nat.lt_irrefl, if_false, gt_iff_lt, hT, makeProtocol_wf steps hwf, gen_protocolTCRefusal,
+    decide_eq_true_eq]
   have hshift : (cumRows 0 steps).map (fun r => (r.1 + T, r.2)) = cumRows T steps := by
     rw [cumRows_shift]
     have : (0 : Rat) + T = T := by grind
